@@ -116,8 +116,51 @@ theorem qs_never_raises (qs : Str) (body : Bytes) :
   obtain ⟨d2, h2⟩ := hf
   exact ⟨_, by simp only [params, h1, h2]; rfl⟩
 
+
+/-! ### the Content-Type header in front of an urlencoded body -/
+
+/-- a header whose (lower-cased) text starts with `application/x-www-form-urlencoded` — whatever follows:
+`; charset=iso-8859-1`, `; charset=x-user-defined`, any other parameter — takes the urlencoded branch of `POST` -/
+theorem formKind_urlencoded (ct rest : Str)
+    (h : ct.map lowerCh = "application/x-www-form-urlencoded".toList ++ rest) :
+    formKind (some ct) = .urlencoded := by
+  have h1 : "multipart/".toList.isPrefixOf ("application/x-www-form-urlencoded".toList ++ rest) = false := by
+    simp [List.isPrefixOf]
+  have h2 : "application/json".toList.isPrefixOf ("application/x-www-form-urlencoded".toList ++ rest) = false := by
+    simp [List.isPrefixOf]
+  simp only [formKind, Option.getD_some, h, h1, h2]
+  rfl
+
+/-- **the label does not matter**: for every Content-Type that is neither `multipart/…` nor
+`application/json…` (so for every `charset=` or other parameter next to
+`application/x-www-form-urlencoded`, for `text/plain`, for no header at all) `Request.forms` and
+`.params` are what they are for the bare body: the pairs sent, percent-escapes decoded as UTF-8;
+and no body whatsoever makes them raise -/
+theorem forms_any_content_type (ct : Option Str) (hct : formKind ct = .urlencoded)
+    (plus : Bool) (ps : List (Str × Str)) (hk : ∀ p ∈ ps, p.1 ≠ []) (qs : Str) (body : Bytes) :
+    formsCt ct (asciiBytes (urlencodeWith plus ps)) = some (.ok (group ps)) ∧
+    paramsCt ct [] (asciiBytes (urlencodeWith plus ps)) = some (.ok (group ps)) ∧
+    (∃ d, formsCt ct body = some (.ok d)) ∧ (∃ d, paramsCt ct qs body = some (.ok d)) := by
+  simp only [formsCt, paramsCt, hct]
+  obtain ⟨_, hf, hp⟩ := qs_never_raises qs body
+  obtain ⟨d1, h1⟩ := hf
+  obtain ⟨d2, h2⟩ := hp
+  exact ⟨by rw [qs_roundtrip_forms plus ps hk], by rw [(qs_roundtrip_params plus ps hk).2],
+    ⟨d1, by rw [h1]⟩, ⟨d2, by rw [h2]⟩⟩
+
 section NonVacuity
 /-! concrete, non-trivial instances of the hypotheses and statements above -/
+
+/-- Content-Type headers meeting the hypothesis of `forms_any_content_type`: a legacy charset label, a label no codec
+exists for, a quoted one, upper case, no header; and the two prefixes that do not -/
+example : formKind (some "application/x-www-form-urlencoded; charset=ISO-8859-1".toList) = .urlencoded := by decide
+example : formKind (some "Application/X-WWW-Form-Urlencoded;charset=x-user-defined".toList) = .urlencoded := by decide
+example : formKind (some "text/plain; charset=\"utf-16\"".toList) = .urlencoded := by decide
+example : formKind none = .urlencoded := by decide
+example : formKind (some "MULTIPART/form-data; boundary=x".toList) = .multipart := by decide
+example : formKind (some "application/JSON".toList) = .json := by decide
+example : ("application/x-www-form-urlencoded; charset=ISO-8859-1".toList).map lowerCh =
+    "application/x-www-form-urlencoded".toList ++ "; charset=iso-8859-1".toList := by decide
 
 /-- a pair list with separators, `+`, `%`, a space, non-ASCII text and a repeated key meets the
 hypothesis of the round-trip theorems … -/
